@@ -206,6 +206,11 @@ def fold(mod, prop_id, tier, seed, results, scratch, t0, args):
         if agg["evaluations"] == 0:
             reasons.append("no executions observed")
 
+    fin = getattr(mod, "finish", None)
+    fin_extra = {}
+    if fin and not args.replay:
+        fin_extra = fin(agg, tier) or {}  # may compact agg["bins"] after the mandatory-bin test above
+
     wall = round(time.time() - t0, 2)
     coverage = {
         "evaluations": agg["evaluations"],
@@ -223,9 +228,7 @@ def fold(mod, prop_id, tier, seed, results, scratch, t0, args):
         "inconclusive_reasons": reasons,
     }
     coverage.update(agg["extra"])
-    fin = getattr(mod, "finish", None)
-    if fin and not args.replay:
-        coverage.update(fin(agg, tier) or {})
+    coverage.update(fin_extra)
     evidence = {
         "property_id": prop_id,
         "tier": tier,
